@@ -52,6 +52,7 @@ def main():
             "caught_by": [k for k, v in caught.items() if v["exit"] == 1],
             "inconclusive_in": [k for k, v in caught.items() if v["exit"] == 2],
             "missed_by": [k for k, v in caught.items() if v["exit"] == 0],
+            "checks_before_this_rounds_strengthening": j.get("checks_before_strengthening", {}),
             "how_run": "git -C /repo apply seeded/<id>/patch.diff; ./check <ID> quick; git -C /repo checkout -- .   (lib/try_seed.py does exactly this with evidence redirected)",
         }
         json.dump(meta, open(os.path.join(d, "meta.json"), "w"), indent=1)
